@@ -48,7 +48,9 @@ def shapes(tier):
 
 
 def units(tier, seed):
-    return [{"tier": tier, "shapes": [recs_to_json(r) for r in ch]} for ch in chunks(shapes(tier), 96)]
+    from . import joint
+
+    return [{"tier": tier, "shapes": [recs_to_json(r) for r in ch]} for ch in chunks(shapes(tier), 96)] + joint.sweep_units(tier)
 
 
 _S = {}
@@ -195,9 +197,16 @@ def run_case(case, ctx=None):
     b = bounds(case.get("tier", "quick"))
     model0 = Model(recs, d)
     ids = identifiers(d)
+    sweepQ, sweepP = [], []
+    if "tokens" in case:   # breadth sweep (mc/sweeps.py)
+        from .. import sweeps
+
+        sweepQ = sweeps.config_queries(model0, case["tokens"], case.get("idents", sweeps.IDENTS))
+        sweepP = list(dict.fromkeys(v for p in sorted(model0.all_prefixes()) for v in sweeps.variants(p)))
+        ids = list(dict.fromkeys(ids + list(case.get("idents", sweeps.IDENTS)) + [i for t in case["tokens"] for i in (t, "1" + t)]))
     for mode in ("ctor", "merge-late", "history", "loader", "shared-list"):
         model = model0
-        prefixes = sorted(model.all_prefixes()) + UNREG + (GHOSTS if mode == "history" else [])
+        prefixes = sorted(model.all_prefixes()) + UNREG + (GHOSTS if mode == "history" else []) + [p for p in sweepP if p not in UNREG]
         if mode == "merge-late" and not any(r.psyn or r.usyn for r in recs):
             continue
         where = f"records {case['recs']} delimiter {d!r} mode {mode}"
@@ -246,7 +255,7 @@ def run_case(case, ctx=None):
                 if d not in p:
                     check_string(conv, model, p + d + i, fails, where)
                 n += 1
-        for s in short_strings(d, b["string_len"]):
+        for s in sweepQ or short_strings(d, b["string_len"]):
             check_string(conv, model, s, fails, where)
             n += 1
         if ctx is not None:
@@ -282,6 +291,14 @@ def run_case(case, ctx=None):
 
 
 def run_unit(unit, ctx):
+    if unit.get("kind") == "sweep":
+        for case in unit["cases"]:
+            case = dict(case, tier=unit["tier"])
+            fails = run_case(case, ctx)
+            ctx.count("sweep_cases")
+            for sig, msg in fails[:2]:
+                ctx.violation(sig, msg, case)
+        return
     for recs in unit["shapes"]:
         for d in DELIMS:
             case = {"recs": recs, "delim": d, "tier": unit["tier"]}
